@@ -72,12 +72,15 @@ def rule_emptiness(ctx: Ctx) -> None:
             aug = [e for e in p.effects if e.kind == "aug" and e.recv == "object_results"] + [
                 e for e in p.effects if e.kind == "call" and e.recv == "object_results" and e.name == "extend"
             ]
-            left = next((v for k, v in f.items() if re.match(r"^truthy:\w+_$", k) or k.startswith("truthy:estimated_objects_")), None)
+            # the working copy of the estimates: whatever local is bound to estimated_objects.copy() / list(estimated_objects) / estimated_objects[:]
+            wc = [e.recv for e in p.effects if e.kind == "assign" and e.value is not None and S(e.value) in ("estimated_objects.copy()", "list(estimated_objects)", "estimated_objects[:]", "copy(estimated_objects)", "copy.copy(estimated_objects)")]
+            wc = wc[0] if wc else "estimated_objects_"
+            left = next((v for k, v in f.items() if k == f"truthy:{wc}"), None)
             rows += 1
             if fpv is True:
                 ctx.check(not aug, "C01-emptiness", "get_object_results", "leftovers:fp-validation", "in FP validation the unpaired estimates are appended as results; they must be dropped", fi=fi)
             elif fpv is False:
-                ok = len(aug) == 1 and (aug[0].kind != "aug" or aug[0].name == "Add") and S(aug[0].value if aug[0].kind == "aug" else aug[0].args[0]).startswith("_get_fp_object_results(estimated_objects_")
+                ok = len(aug) == 1 and (aug[0].kind != "aug" or aug[0].name == "Add") and S(aug[0].value if aug[0].kind == "aug" else aug[0].args[0]).startswith(f"_get_fp_object_results({wc}")
                 ctx.check(ok, "C01-emptiness", "get_object_results", "leftovers:normal",
                           f"outside FP validation the unpaired estimates must be appended once as GT-less results built from the working list (found {[strip_v(U(a.value)) if a.value is not None else a.text for a in aug]})", fi=fi)
             elif left is False:
